@@ -128,6 +128,7 @@ inductive LOp where
   | divPow2Assign (d bits : Nat)
   | rescale (d k a : Nat)
   | rescaleAssign (d k : Nat)
+  | align (a b : Nat)
 deriving Repr, DecidableEq
 
 /-- the API call as the metadata model sees it (`add` and `sub` have one metadata behaviour) -/
@@ -142,6 +143,7 @@ def LOp.toOp : LOp → Op
   | .divPow2Assign d bits => .divPow2Assign d bits
   | .rescale d k a => .rescale d k a
   | .rescaleAssign d k => .rescaleAssign d k
+  | .align a b => .align a b
 
 abbrev DPool := List DCt
 
@@ -177,6 +179,14 @@ def dstep (env : Env) (N : Nat) (pool : DPool) : LOp → Outcome DPool
   | .divPow2Assign d bits => dop1 pool d (fun cd => dDivPow2Assign env N cd bits)
   | .rescale d k a => dop2 pool d a (fun cd ca => dRescaleInto env N cd k ca)
   | .rescaleAssign d k => dop1 pool d (fun cd => dRescaleAssign env N cd k)
+  | .align a b =>
+    match pool[a]?, pool[b]? with
+    | some ca, some cb =>
+      if a = b then .err Err.badSlot.toString
+      else if ca.md.logBudget < cb.md.logBudget then
+        dput pool b (dRescaleAssign env N cb (cb.md.logBudget - ca.md.logBudget))
+      else dput pool a (dRescaleAssign env N ca (ca.md.logBudget - cb.md.logBudget))
+    | _, _ => .err Err.badSlot.toString
 
 /-- the pool a call leaves behind when it returns `Err`: `ckks_add_into` / `ckks_sub_into` run their data path
 before the budget check, so the destination holds the un-normalised aligned sum under its old metadata; every
